@@ -121,24 +121,31 @@ def standard_entry(blocks):
     return hdr + b"".join(enc)
 
 
-def texture_entry(header, mips):
-    """header: raw texture header bytes (any length); mips: list of lists of (bytes, mode)."""
+def texture_entry(header, mips, gaps=None, order=None):
+    """header: raw texture header bytes (any length); mips: list of lists of (bytes, mode).
+    gaps: 128-byte units left free in front of each mip's blocks; order: the order in which the mips' blocks are stored
+    (every mip states its own offset, so neither has to be 0 / the reading order)."""
     enc = [[block(d, m) for d, m in mip] for mip in mips]
-    nblocks = sum(len(m) for m in mips)
+    gaps = gaps or [0] * len(mips)
+    order = order if order is not None else list(range(len(mips)))
     hdr = struct.pack("<IiI", 0, 4, len(header) + sum(len(d) for mip in mips for d, _ in mip)) + struct.pack("<III", 0, 0, len(mips))
-    off = len(header)
+    start = {}
+    body = bytearray(header)
+    for k in order:
+        body += b"\xEE" * (128 * gaps[k])
+        start[k] = len(body)
+        body += b"".join(enc[k])
     bi = 0
     table = b""
-    for mip, e in zip(mips, enc):
+    for k, (mip, e) in enumerate(zip(mips, enc)):
         csize = sum(len(x) for x in e)
-        hdr += struct.pack("<IIIII", off, csize, sum(len(d) for d, _ in mip), bi, len(mip))
-        off += csize
+        hdr += struct.pack("<IIIII", start[k], csize, sum(len(d) for d, _ in mip), bi, len(mip))
         bi += len(mip)
         for x in e:
             table += struct.pack("<H", len(x))
     hdr = pad128(hdr + table)
     hdr = struct.pack("<I", len(hdr)) + hdr[4:]
-    return hdr + header + b"".join(x for e in enc for x in e)
+    return hdr + bytes(body)
 
 
 def model_entry(m):
